@@ -7,7 +7,9 @@ MANIFEST = {
             "urlencoding::encode), C18_url_alphabet (subset of [A-Za-z0-9-._~%]), C18_url_no_comment_end (`*/` cannot "
             "occur); on the model of parse_at_rule, for all paths/positions/states: C18_import_placeholder, "
             "C18_import_media_wrapper (one balanced @media{} pair), C18_import_passthrough (no sign => generic at-rule), "
-            "C18_import_position_warning, C18_import_placeholder_url / _url_fn and C18_import_any_target (string and url "
+            "C18_import_position_warning, C18_import_start_survives / _lost (the start of the sheet survives @import / @charset "
+            "rules only), C18_import_bare_layer_wrapper / C18_import_layer_wrapper (anonymous and named layer, any letter case), "
+            "C18_import_placeholder_url / _url_fn and C18_import_any_target (string and url "
             "forms, every sign and path: the statement that D17 refuted before fix eb11eee is now a theorem). REFUTED for "
             "the current code: C18_import_braces_balanced_refuted "
             "(`@import 'a' layer(x) 5;` leaves `@layer x{` open: output written before a failing try_parse is not rolled "
@@ -15,7 +17,7 @@ MANIFEST = {
             "layer/supports/media combinations and positions; the path recovered from each placeholder of the real output "
             "must equal the imported path, wrappers must balance, warnings must match.",
     "note": "Differential only: the token streams of layer()/supports()/media conditions (compared with the executable "
-            "specification). No known class is left for this property (D17, D13-inside-supports() and D25 were repaired). Import signs are assumed not to contain `*/`.",
+            "specification). No known class is left for this property (D17, D13-inside-supports(), D25, keyword letter case, the bare `layer` keyword and the position flag of a second import were repaired in /repo). Import signs are assumed not to contain `*/`.",
     "technique": "Coq proof (lists of code points, all lengths) + symbolic model lemmas + refutation witnesses + recovery "
                  "test on the implementation output",
 }
@@ -23,7 +25,8 @@ MANIFEST = {
 THEOREMS = ["C18_url_roundtrip", "C18_url_alphabet", "C18_url_no_comment_end", "C18_import_placeholder",
             "C18_import_media_wrapper", "C18_import_passthrough", "C18_import_position_warning",
             "C18_import_placeholder_url", "C18_import_placeholder_url_fn", "C18_import_any_target",
-            "C18_import_braces_balanced_refuted"]
+            "C18_import_braces_balanced_refuted", "C18_import_bare_layer_wrapper", "C18_import_layer_wrapper",
+            "C18_import_start_survives", "C18_import_start_lost"]
 
 
 def run(res):
